@@ -192,7 +192,7 @@ class err_handler(object):
         """
         """
         #pdb.set_trace()
-        if not self.seg_node_added:
+        if not self.seg_node_added and self.cur_st_node is not None:
             self.cur_st_node.children.append(self.cur_seg_node)
             self.seg_node_added = True
 
@@ -238,6 +238,11 @@ class err_handler(object):
         @param err_str: Description of the error
         @type err_str: string
         """
+        if self.cur_gs_node is None:
+            # no functional group is open: the interchange content is invalid
+            if self.cur_isa_node is not None:
+                self.isa_error('024', err_str)
+            return
         sout = ''
         sout += 'Line:%i ' % (self.cur_gs_node.get_cur_line())
         sout += 'GS:%s - %s' % (err_cde, err_str)
@@ -251,6 +256,11 @@ class err_handler(object):
         @param err_str: Description of the error
         @type err_str: string
         """
+        if self.cur_st_node is None:
+            # no transaction set is open: the interchange content is invalid
+            if self.cur_isa_node is not None:
+                self.isa_error('024', err_str)
+            return
         sout = ''
         sout += 'Line:%i ' % (self.cur_st_node.get_cur_line())
         sout += 'ST:%s - %s' % (err_cde, err_str)
